@@ -55,13 +55,32 @@ def frame_from_bits(fields, total_bits):
     v <<= (total_bits - n)
     return v.to_bytes(total_bits // 8, "big")
 
-def run_ops(binary, ops, extra_env=None):
+def run_ops(binary, ops, extra_env=None, timeout=None):
+    """feed the operations to the binary, one output line per operation. An operation that does not complete (no output within the
+    time limit: 120 s + 1 s per 200 operations) is reported as `HANG ...`, the operations after it as `SKIPPED`."""
+    import tempfile
     env = dict(os.environ)
     if extra_env: env.update(extra_env)
-    p = subprocess.run([binary], input=("\n".join(ops) + "\n").encode(), stdout=subprocess.PIPE, stderr=subprocess.PIPE, env=env)
+    if timeout is None: timeout = 120 + len(ops) / 200.0
+    os.makedirs(WORK, exist_ok=True)
+    with tempfile.TemporaryFile(dir=WORK) as fo, tempfile.TemporaryFile(dir=WORK) as fe:
+        p = subprocess.Popen([binary], stdin=subprocess.PIPE, stdout=fo, stderr=fe, env=env)
+        hung = False
+        try:
+            p.communicate(("\n".join(ops) + "\n").encode(), timeout=timeout)
+        except subprocess.TimeoutExpired:
+            hung = True; p.kill(); p.wait()
+        fo.seek(0); raw = fo.read().decode(errors="replace"); fe.seek(0); err = fe.read().decode(errors="replace")
+    out = raw.split("\n")
+    if hung:
+        out = out[:-1]                                  # the last piece is an incomplete line (or empty)
+        k = len(out)
+        if k < len(ops):
+            out.append("HANG the operation did not complete within %.0f s" % timeout)
+            out += ["SKIPPED after the operation that did not complete"] * (len(ops) - k - 1)
+        return out[:len(ops)]
     if p.returncode != 0:
-        raise RuntimeError("%s exited %d: %s" % (binary, p.returncode, p.stderr.decode()[-2000:]))
-    out = p.stdout.decode().split("\n")
+        raise RuntimeError("%s exited %d: %s" % (binary, p.returncode, err[-2000:]))
     if out and out[-1] == "": out.pop()
     if len(out) != len(ops):
         raise RuntimeError("%s produced %d lines for %d ops" % (binary, len(out), len(ops)))
